@@ -138,6 +138,8 @@ def term_y_and_J(case):
     for t in case["terms"]:
         m = t["model"]
         A = np.asarray(m["A"], dtype=float).reshape(len(m["b"]), -1)
+        if m.get("pre") is not None:
+            A = A @ np.asarray(m["pre"], dtype=float)
         z = A @ x + np.asarray(m["b"], dtype=float)
         ys, Js, off = [], [], 0
         for l, a in zip(I.spec_leaves(I.primal_spec(t)), m["acts"]):
@@ -179,7 +181,7 @@ def driver_line(case, yj=None):
     terms = []
     for t, (y, J) in zip(case["terms"], yj):
         k = t["kind"]
-        d = dict(kind=k, y=enc(y), J=None if J is None else enc(J))
+        d = dict(kind=k, y=enc(y), J=None if J is None else enc(J), defaults=bool(t.get("defaults")))
         if k in ("gaussian", "studentt"):
             cov, std = _expand(t, t["par"].get("cov")), _expand(t, t["par"].get("std"))
             d["cov"] = None if cov is None else enc(cov)
@@ -488,8 +490,16 @@ def shrink(case):
 # ---------------------------------------------------------------------------------------------------
 # generation
 # ---------------------------------------------------------------------------------------------------
+def _maybe_defaults(rng, t):
+    # run the DEFAULTS of `Likelihood` (L = vjp of the transformation, R = transpose, M = L o R) on the exact
+    # transformations of the library
+    if t["kind"] in EXACT_T and rng.random() < 0.3:
+        t["defaults"] = True
+    return t
+
+
 def gen_plain(rng, kind=None):
-    return dict(op="lh", terms=[G.gen_term(rng, kind)])
+    return dict(op="lh", terms=[_maybe_defaults(rng, G.gen_term(rng, kind))])
 
 
 def gen_composed(rng, kinds=None, nterms=None, freeze=None):
@@ -504,6 +514,12 @@ def gen_composed(rng, kinds=None, nterms=None, freeze=None):
         leaves = I.spec_leaves(ps)
         n_first = len(ps["first"]["leaves"]) if ps["wrap"] == "pair" else len(leaves)
         t["model"] = G.gen_model(rng, t, nlat, leaves, n_first)
+        _maybe_defaults(rng, t)
+        if rng.random() < 0.2 and (nterms == 1 or lat["wrap"] != "arr"):
+            # chain of two forward models (`amend` of an amended likelihood): a linear re-parametrisation first
+            t["model"]["pre"] = [[(rng.randint(-4, 4) / 4.0 if (rng.random() < 0.5 or i == j_) else 0.0)
+                                  for j_ in range(nlat)] for i in range(nlat)]
+            t["model"].pop("lazy", None)
         if nterms > 1 and lat["wrap"] == "arr":
             # LikelihoodSum joins the summands' domains with `|` (dict union): forward models that declare an
             # array domain (jft.Model) are rejected by its constructor -- not an input the property speaks about
@@ -550,6 +566,10 @@ def stat_case(ctx, case):
                 ctx.stat("act=" + a)
             if t["model"].get("lazy"):
                 ctx.stat("model=jft.Model")
+            if t["model"].get("pre") is not None:
+                ctx.stat("model=chain(amend.amend)")
+        if t.get("defaults"):
+            ctx.stat("Likelihood-defaults")
     if case.get("latent") is None:
         ctx.stat("mode=plain")
     else:
